@@ -229,3 +229,47 @@ def with_repeated_ids(rng, t, count=None):
     for d, anc in rng.sample(deep, min(len(deep), count or rng.choice([1, 2, 4]))):
         d["id"] = rng.choice(anc)["id"] if rng.random() < 0.6 else rng.choice(paths)[0]["id"]
     return snapshot.from_plain(Node, plain, fresh_ids=False)
+
+
+def tree_through(gen, element, child_name):
+    """A smallest valid tree rooted at `element` whose root lists a child called `child_name` (None if the rule's language has no valid
+    sequence through that name, or a sibling it needs cannot be built)."""
+    from vlib import relang
+    rname = gen.known.get(element)
+    if rname is None or not gen.buildable(child_name):
+        return None
+    try:
+        m = emlkit.machine_of(rname)
+    except Exception:
+        return None
+    start = (0, False)
+    prev = {start: None}
+    queue = [start]
+    goal = None
+    for st in queue:
+        s_, seen = st
+        if seen and m.out[s_] == relang.ACCEPT:
+            goal = st
+            break
+        for a in m.sigma:
+            if a == relang.FOREIGN or not gen.buildable(a):
+                continue
+            nx = (m.delta[s_][a], seen or a == child_name)
+            if nx not in prev:
+                prev[nx] = (st, a)
+                queue.append(nx)
+    if goal is None:
+        return None
+    seq = []
+    st = goal
+    while prev[st] is not None:
+        st, a = prev[st]
+        seq.append(a)
+    seq.reverse()
+    root = Node(element)
+    root.content = emlkit.canonical_content(rname)
+    for k, v in emlkit.valid_attributes(rname).items():
+        root.add_attribute(k, v)
+    for a in seq:
+        root.add_child(gen.minimal_tree(a))
+    return root
